@@ -90,6 +90,21 @@ pub struct H {
     c: C,
 }
 
+/// four levels up: above the root from a shallow base directory only
+#[derive(TS)]
+#[ts(export_to = "../../../../up4.ts")]
+pub struct Up4 {
+    x: i32,
+}
+
+/// depends on Up4, between two ordinary dependencies
+#[derive(TS)]
+pub struct H4 {
+    a: A,
+    up: Up4,
+    b: B,
+}
+
 /// the same file name in another directory as C
 #[derive(TS)]
 #[ts(export_to = "sub/C.ts", rename = "C2")]
@@ -167,7 +182,7 @@ macro_rules! universe {
 }
 
 universe!(
-    A, B, C, D, E, F, G<i32>, G<C, A>, G<ts_rs::Dummy, ts_rs::Dummy>, U1, U2, Up, H, C2,
+    A, B, C, D, E, F, G<i32>, G<C, A>, G<ts_rs::Dummy, ts_rs::Dummy>, U1, U2, Up, H, C2, Up4, H4,
     Vec<A>, Option<B>, i32, (C, D), std::collections::HashMap<String, E>, Box<A>,
 );
 
